@@ -62,6 +62,28 @@ var c14model = porcupine.Model{
 }
 
 func wrongTyped(r *rand.Rand) (value.Value, string) {
+	// values whose bytes could be mistaken for an int32 but whose type is not the declared one
+	four := []byte{byte(r.Intn(100)), 0, 0, 0}
+	switch r.Intn(16) {
+	case 7:
+		return value.Opaque("(i)", four), "tuple(i)"
+	case 8:
+		return value.Opaque("((i))", four), "tuple((i))"
+	case 9:
+		return value.Opaque("(I)", four), "tuple(I)"
+	case 10:
+		return value.Int16(int16(r.Intn(100))), "int16"
+	case 11:
+		return value.Uint8(uint8(r.Intn(100))), "uint8"
+	case 12:
+		return value.Opaque("d", append(four, 0, 0, 0, 0)), "double"
+	case 13:
+		return value.Opaque("[i]", append([]byte{1, 0, 0, 0}, four...)), "list[i]"
+	case 14:
+		return value.Opaque("(i)<Level,v>", four), "struct(i)"
+	case 15:
+		return value.Raw(four), "raw"
+	}
 	switch r.Intn(7) {
 	case 0:
 		return value.String("abcd"), "string(abcd)"
